@@ -103,6 +103,7 @@ package distributed
 // The content of an encoded StateBroadcastEvent as a decoder sees it (A-PROTOBUF: Marshal writes, Unmarshal reads exactly this;
 // pointers and slices are compared by what they point to: sm_eq / sub_eq / rm_eq).
 //@ fun ev_nsess(enc string) int
+//@ axiom ev_counts: forall e string :: {ev_nsess(e)} {ev_nsubs(e)} {ev_nret(e)} ev_nsess(e) >= 0 && ev_nsubs(e) >= 0 && ev_nret(e) >= 0
 //@ fun ev_sess(enc string, i int) api.SessionMetadatas
 //@ fun ev_nsubs(enc string) int
 //@ fun ev_sub(enc string, i int) api.Subscription
@@ -183,8 +184,10 @@ package distributed
 //@   modifies newrows(api.SessionMetadatas)
 // both passes count the same set (the added records selected by f): the second fills exactly the slots the first counted
 //@ loop (*sessionMetadatasState).filter#1
+//@   invariant oldobjs("api.SessionMetadatas")
 //@   invariant sm_wf(s) && c == scard(seenset(), setof k string :: k in s.sessions && sm_added(s.sessions[k]) && f(s.sessions[k]))
 //@ loop (*sessionMetadatasState).filter#2
+//@   invariant oldobjs("api.SessionMetadatas") && oldrows("[]api.SessionMetadatas")
 //@   invariant sm_wf(s) && fresh(out) && off(out) == 0 && len(out) == c
 //@   invariant idx == scard(seenset(), setof k string :: k in s.sessions && sm_added(s.sessions[k]) && f(s.sessions[k]))
 //@   invariant forall i int :: {out[i]} 0 <= i && i < idx ==> out[i].SessionID in s.sessions && out[i] == s.sessions[out[i].SessionID] && sm_added(out[i]) && f(out[i])
@@ -196,7 +199,7 @@ package distributed
 //@   ensures err != nil ==> (forall k string :: {s.sessions[k]} {k in s.sessions} k in s.sessions ==> !(sm_added(s.sessions[k]) && f(s.sessions[k])))
 //@   modifies nothing
 //@ loop (*sessionMetadatasState).find#1
-//@   invariant sm_wf(s)
+//@   invariant sm_wf(s) && oldobjs("api.SessionMetadatas")
 //@   invariant forall k string :: {seen(k)} seen(k) && k in s.sessions ==> !(sm_added(s.sessions[k]) && f(s.sessions[k]))
 
 //@ func (*sessionMetadatasState).ByClientID(clientID string) (v api.SessionMetadatas, err error)
@@ -248,10 +251,11 @@ package distributed
 //@   ensures forall k string :: {s.sessions[k]} {k in s.sessions} k in s.sessions ==> (exists i int :: {event.SessionMetadatas[i]} old(len(event.SessionMetadatas)) <= i && i < len(event.SessionMetadatas) && event.SessionMetadatas[i] != nil && *event.SessionMetadatas[i] == s.sessions[k])
 //@   ensures forall i int :: {event.SessionMetadatas[i]} old(len(event.SessionMetadatas)) <= i && i < len(event.SessionMetadatas) ==> event.SessionMetadatas[i] != nil && fresh(event.SessionMetadatas[i]) && event.SessionMetadatas[i].SessionID in s.sessions && *event.SessionMetadatas[i] == s.sessions[event.SessionMetadatas[i].SessionID]
 //@   ensures forall i int :: {event.SessionMetadatas[i]} 0 <= i && i < old(len(event.SessionMetadatas)) ==> event.SessionMetadatas[i] == old(event.SessionMetadatas[i])
-//@   modifies event.SessionMetadatas, allelems(event.SessionMetadatas)
+//@   modifies event.SessionMetadatas, elems(event.SessionMetadatas), newrows(*api.SessionMetadatas), newobjs(api.SessionMetadatas)
 //@ loop (*sessionMetadatasState).dump#1
 //@   invariant sm_wf(s) && event != nil && len(event.SessionMetadatas) >= old(len(event.SessionMetadatas)) && off(event.SessionMetadatas) == 0
-//@   invariant oldobjs("api.SessionMetadatas") && oldobjs("api.StateBroadcastEvent", event)
+//@   invariant oldobjs("api.SessionMetadatas") && oldobjs("api.StateBroadcastEvent", event) && oldrows("[]*api.SessionMetadatas", old(event.SessionMetadatas))
+//@   invariant base(event.SessionMetadatas) == old(base(event.SessionMetadatas)) || fresh(event.SessionMetadatas)
 //@   invariant forall k string :: {seen(k)} seen(k) && k in s.sessions ==> (exists i int :: {event.SessionMetadatas[i]} old(len(event.SessionMetadatas)) <= i && i < len(event.SessionMetadatas) && event.SessionMetadatas[i] != nil && *event.SessionMetadatas[i] == s.sessions[k])
 //@   invariant forall i int :: {event.SessionMetadatas[i]} old(len(event.SessionMetadatas)) <= i && i < len(event.SessionMetadatas) ==> event.SessionMetadatas[i] != nil && fresh(event.SessionMetadatas[i]) && allocated(event.SessionMetadatas[i]) && event.SessionMetadatas[i].SessionID in s.sessions && *event.SessionMetadatas[i] == s.sessions[event.SessionMetadatas[i].SessionID]
 //@   invariant forall i int :: {event.SessionMetadatas[i]} 0 <= i && i < old(len(event.SessionMetadatas)) ==> event.SessionMetadatas[i] == old(event.SessionMetadatas[i])
@@ -280,7 +284,7 @@ package distributed
 //@         && (unbox(pb, *api.SubscriptionList).Subscriptions == nil || fresh(unbox(pb, *api.SubscriptionList).Subscriptions))
 //@         && (forall i int :: {unbox(pb, *api.SubscriptionList).Subscriptions[i]} 0 <= i && i < sl_n(string(buf)) ==> unbox(pb, *api.SubscriptionList).Subscriptions[i] != nil && fresh(unbox(pb, *api.SubscriptionList).Subscriptions[i])
 //@               && sl_is(string(buf), i, *unbox(pb, *api.SubscriptionList).Subscriptions[i]))
-//@   modifies newobjs(unbox(pb, *api.SubscriptionList)), newobjs(api.Subscription), newrows(*api.Subscription), newrows(bytes)
+//@   modifies when pb is *api.SubscriptionList: newobjs(unbox(pb, *api.SubscriptionList)), when pb is *api.SubscriptionList: newobjs(api.Subscription), when pb is *api.SubscriptionList: newrows(*api.Subscription), newrows(bytes)
 //@ trusted func github.com/golang/protobuf/proto.Marshal(pb proto.Message) (out []byte, err error)
 //@   ensures err == nil && typeis(pb, *api.SubscriptionList) ==> out != nil && fresh(out) && sl_ok(string(out)) && sl_n(string(out)) == len(unbox(pb, *api.SubscriptionList).Subscriptions)
 //@         && (forall i int :: {sl_sid(string(out), i)} {unbox(pb, *api.SubscriptionList).Subscriptions[i]} 0 <= i && i < len(unbox(pb, *api.SubscriptionList).Subscriptions) ==> sl_is(string(out), i, *unbox(pb, *api.SubscriptionList).Subscriptions[i]))
@@ -312,10 +316,10 @@ package distributed
 //@   modifies #treeUpserts, #lastUpsertKey, newrows(bytes), newobjs(api.SubscriptionList), newobjs(api.Subscription), newrows(*api.Subscription)
 //@ func (subscriptions.Tree).Walk(t subscriptions.Tree, topic []byte, iterator subscriptions.NodeIterator)
 //@   ensures #treeWalks == old(#treeWalks) + 1 && #lastWalkKey == string(topic)
-//@   modifies *, except(heap(E_byte)), newrows(bytes), #treeWalks, #lastWalkKey
+//@   modifies effects(iterator), #treeWalks, #lastWalkKey
 //@ func (subscriptions.Tree).Iterate(t subscriptions.Tree, iterator subscriptions.NodeIterator)
 //@   ensures #treeIterates == old(#treeIterates) + 1
-//@   modifies *, except(heap(E_byte)), newrows(bytes), #treeIterates
+//@   modifies effects(iterator), #treeIterates
 
 // set hands the record to the trie: one upsert at the record's pattern with the merge closure above; the record is logged
 //@ func (*subscriptionsState).set(subscription api.Subscription)
@@ -347,10 +351,10 @@ package distributed
 //@ func (*subscriptionsState).mergeSubscriptions(subscriptions []*api.Subscription) (err error)
 //@   requires s != nil && s.subscriptions != nil && unlocked(s.mu)
 //@   requires forall i int :: {subscriptions[i]} 0 <= i && i < len(subscriptions) ==> subscriptions[i] != nil
-//@   ensures err == nil ==> #setN == old(#setN) + len(subscriptions) && (forall i int :: {subscriptions[i]} 0 <= i && i < len(subscriptions) ==> setlog_is(old(#setN) + i, *subscriptions[i]))
+//@   ensures err == nil ==> #setN == old(#setN) + len(subscriptions) && (forall i int :: {subscriptions[i]} {#setSid[old(#setN) + i]} 0 <= i && i < len(subscriptions) ==> setlog_is(old(#setN) + i, *subscriptions[i]))
 //@   ensures err != nil ==> err == ErrInvalidPayload && #setN - old(#setN) < len(subscriptions) && #setN >= old(#setN)
 //@            && (subscriptions[#setN - old(#setN)].SessionID == "" || len(subscriptions[#setN - old(#setN)].Pattern) == 0)
-//@            && (forall i int :: {subscriptions[i]} 0 <= i && i < #setN - old(#setN) ==> setlog_is(old(#setN) + i, *subscriptions[i]))
+//@            && (forall i int :: {subscriptions[i]} {#setSid[old(#setN) + i]} 0 <= i && i < #setN - old(#setN) ==> setlog_is(old(#setN) + i, *subscriptions[i]))
 //@   modifies #treeUpserts, #lastUpsertKey, #setN, #setSid, #setPat, #setPeer, #setQoS, #setLA, #setLD, newrows(bytes), newobjs(api.SubscriptionList), newobjs(api.Subscription), newrows(*api.Subscription)
 //@ loop (*subscriptionsState).mergeSubscriptions#1
 //@   invariant s != nil && s.subscriptions != nil && -1 <= rangeindex && rangeindex < len(subscriptions) && #setN == old(#setN) + rangeindex + 1
@@ -397,11 +401,11 @@ package distributed
 //@ func (*subscriptionsState).filter(f func(api.Subscription) bool) (out []api.Subscription)
 //@   requires s != nil && s.subscriptions != nil
 //@   ensures #treeIterates == old(#treeIterates) + 1 && #treeWalks == old(#treeWalks)
-//@   modifies *, except(heap(E_byte)), newrows(bytes), #treeIterates
+//@   modifies newobjs(api.SubscriptionList), newobjs(api.Subscription), newrows(*api.Subscription), newrows(api.Subscription), newrows(bytes), #treeIterates
 //@ func (*subscriptionsState).filterPattern(pattern []byte, f func(api.Subscription) bool) (out []api.Subscription)
 //@   requires s != nil && s.subscriptions != nil
 //@   ensures #treeWalks == old(#treeWalks) + 1 && #lastWalkKey == string(pattern) && #treeIterates == old(#treeIterates)
-//@   modifies *, except(heap(E_byte)), newrows(bytes), #treeWalks, #lastWalkKey
+//@   modifies newobjs(api.SubscriptionList), newobjs(api.Subscription), newrows(*api.Subscription), newrows(api.Subscription), newrows(bytes), #treeWalks, #lastWalkKey
 
 // C09: the bulk removals (a peer's or a session's subscriptions) stamp a private copy of every selected record with ONE deletion
 // time, encode all copies into ONE broadcast, then merge every copy through set: the records merged locally are exactly the
@@ -413,15 +417,16 @@ package distributed
 //@   requires s != nil && s.subscriptions != nil && unlocked(s.mu) && s.bcast != nil
 //@   ensures (#bcasts == old(#bcasts) && #setN == old(#setN)) || bulk_ok(old(#setN), #setN - old(#setN), old(#bcasts))
 //@   ensures #treeIterates == old(#treeIterates) + 1
-//@   modifies *, except(heap(E_byte)), newrows(bytes), #treeIterates, #treeUpserts, #lastUpsertKey, #setN, #setSid, #setPat, #setPeer, #setQoS, #setLA, #setLD, #bcasts, #lastBcast
+//@   modifies newobjs(api.SubscriptionList), newobjs(api.Subscription), newobjs(api.StateBroadcastEvent), newrows(*api.Subscription), newrows(api.Subscription), newrows(bytes), #treeIterates, #treeUpserts, #lastUpsertKey, #setN, #setSid, #setPat, #setPeer, #setQoS, #setLA, #setLD, #bcasts, #lastBcast
 //@ func (*subscriptionsState).DeleteSession(id string)
 //@   requires s != nil && s.subscriptions != nil && unlocked(s.mu) && s.bcast != nil
 //@   ensures (#bcasts == old(#bcasts) && #setN == old(#setN)) || bulk_ok(old(#setN), #setN - old(#setN), old(#bcasts))
 //@   ensures #treeIterates == old(#treeIterates) + 1
-//@   modifies *, except(heap(E_byte)), newrows(bytes), #treeIterates, #treeUpserts, #lastUpsertKey, #setN, #setSid, #setPat, #setPeer, #setQoS, #setLA, #setLD, #bcasts, #lastBcast
+//@   modifies newobjs(api.SubscriptionList), newobjs(api.Subscription), newobjs(api.StateBroadcastEvent), newrows(*api.Subscription), newrows(api.Subscription), newrows(bytes), #treeIterates, #treeUpserts, #lastUpsertKey, #setN, #setSid, #setPat, #setPeer, #setQoS, #setLA, #setLD, #bcasts, #lastBcast
 //@ loop (*subscriptionsState).DeletePeer#1
 //@   invariant s != nil && s.subscriptions != nil && s.bcast != nil && event != nil && fresh(event) && -1 <= rangeindex && rangeindex < len(toDelete) && len(event.Subscriptions) == rangeindex + 1 && off(event.Subscriptions) == 0 && now > 0
 //@   invariant #setN == old(#setN) && #bcasts == old(#bcasts) && #treeIterates == old(#treeIterates) + 1
+//@   invariant oldrows("[]*api.Subscription") && oldobjs("api.StateBroadcastEvent") && fresh(event.Subscriptions)
 //@   invariant forall j int :: {event.Subscriptions[j]} 0 <= j && j <= rangeindex ==> event.Subscriptions[j] != nil && allocated(event.Subscriptions[j]) && event.Subscriptions[j].LastDeleted == now
 //@ loop (*subscriptionsState).DeletePeer#2
 //@   invariant s != nil && s.subscriptions != nil && s.bcast != nil && event != nil && -1 <= rangeindex && rangeindex < len(event.Subscriptions) && #setN == old(#setN) + rangeindex + 1 && #bcasts == old(#bcasts) && #treeIterates == old(#treeIterates) + 1 && now > 0
@@ -430,6 +435,7 @@ package distributed
 //@ loop (*subscriptionsState).DeleteSession#1
 //@   invariant s != nil && s.subscriptions != nil && s.bcast != nil && event != nil && fresh(event) && -1 <= rangeindex && rangeindex < len(toDelete) && len(event.Subscriptions) == rangeindex + 1 && off(event.Subscriptions) == 0 && now > 0
 //@   invariant #setN == old(#setN) && #bcasts == old(#bcasts) && #treeIterates == old(#treeIterates) + 1
+//@   invariant oldrows("[]*api.Subscription") && oldobjs("api.StateBroadcastEvent") && fresh(event.Subscriptions)
 //@   invariant forall j int :: {event.Subscriptions[j]} 0 <= j && j <= rangeindex ==> event.Subscriptions[j] != nil && allocated(event.Subscriptions[j]) && event.Subscriptions[j].LastDeleted == now
 //@ loop (*subscriptionsState).DeleteSession#2
 //@   invariant s != nil && s.subscriptions != nil && s.bcast != nil && event != nil && -1 <= rangeindex && rangeindex < len(event.Subscriptions) && #setN == old(#setN) + rangeindex + 1 && #bcasts == old(#bcasts) && #treeIterates == old(#treeIterates) + 1 && now > 0
@@ -451,7 +457,7 @@ package distributed
 //@   ensures sl_ok(string(b)) ==> (forall i int :: {out[i]} old(len(out)) <= i && i < len(out) ==> sub_added(out[i]) && f(out[i]) && (exists j int :: {sl_sid(string(b), j)} 0 <= j && j < sl_n(string(b)) && sl_is(string(b), j, out[i])))
 //@   ensures sl_ok(string(b)) ==> (forall j int :: {sl_sid(string(b), j)} 0 <= j && j < sl_n(string(b)) && sl_la(string(b), j) > 0 && sl_la(string(b), j) > sl_ld(string(b), j) ==>
 //@               (exists i int :: {out[i]} old(len(out)) <= i && i < len(out) && sl_is(string(b), j, out[i])) || (exists v api.Subscription :: {f(v)} sl_is(string(b), j, v) && !f(v)))
-//@   modifies out, allelems(out), newobjs(api.SubscriptionList), newobjs(api.Subscription), newrows(*api.Subscription), newrows(api.Subscription), newrows(bytes)
+//@   modifies out, elems(out), newobjs(api.SubscriptionList), newobjs(api.Subscription), newrows(*api.Subscription), newrows(api.Subscription), newrows(bytes)
 //@ loop (*subscriptionsState).filter$1#1
 //@   invariant local != nil && fresh(local) && -1 <= rangeindex && rangeindex < len(local.Subscriptions) && len(local.Subscriptions) == sl_n(string(b)) && off(local.Subscriptions) == 0 && sl_ok(string(b))
 //@   invariant cellsframe(out) && oldrows("[]api.Subscription", old(out)) && oldobjs("api.Subscription") && oldobjs("api.SubscriptionList")
@@ -470,7 +476,7 @@ package distributed
 //@   ensures sl_ok(string(b)) ==> (forall i int :: {out[i]} old(len(out)) <= i && i < len(out) ==> sub_added(out[i]) && f(out[i]) && (exists j int :: {sl_sid(string(b), j)} 0 <= j && j < sl_n(string(b)) && sl_is(string(b), j, out[i])))
 //@   ensures sl_ok(string(b)) ==> (forall j int :: {sl_sid(string(b), j)} 0 <= j && j < sl_n(string(b)) && sl_la(string(b), j) > 0 && sl_la(string(b), j) > sl_ld(string(b), j) ==>
 //@               (exists i int :: {out[i]} old(len(out)) <= i && i < len(out) && sl_is(string(b), j, out[i])) || (exists v api.Subscription :: {f(v)} sl_is(string(b), j, v) && !f(v)))
-//@   modifies out, allelems(out), newobjs(api.SubscriptionList), newobjs(api.Subscription), newrows(*api.Subscription), newrows(api.Subscription), newrows(bytes)
+//@   modifies out, elems(out), newobjs(api.SubscriptionList), newobjs(api.Subscription), newrows(*api.Subscription), newrows(api.Subscription), newrows(bytes)
 //@ loop (*subscriptionsState).filterPattern$1#1
 //@   invariant local != nil && fresh(local) && -1 <= rangeindex && rangeindex < len(local.Subscriptions) && len(local.Subscriptions) == sl_n(string(b)) && off(local.Subscriptions) == 0 && sl_ok(string(b))
 //@   invariant cellsframe(out) && oldrows("[]api.Subscription", old(out)) && oldobjs("api.Subscription") && oldobjs("api.SubscriptionList")
@@ -485,22 +491,22 @@ package distributed
 //@ func (*subscriptionsState).ByPattern(pattern []byte) (out []api.Subscription)
 //@   requires s != nil && s.subscriptions != nil && unlocked(s.mu)
 //@   ensures #treeWalks == old(#treeWalks) + 1 && #lastWalkKey == string(pattern)
-//@   modifies *, except(heap(E_byte)), newrows(bytes), #treeWalks, #lastWalkKey
+//@   modifies newobjs(api.SubscriptionList), newobjs(api.Subscription), newrows(*api.Subscription), newrows(api.Subscription), newrows(bytes), #treeWalks, #lastWalkKey
 //@ func (*subscriptionsState).ByPeer(peer uint64) (out []api.Subscription)
 //@   requires s != nil && s.subscriptions != nil && unlocked(s.mu)
 //@   ensures #treeIterates == old(#treeIterates) + 1
-//@   modifies *, except(heap(E_byte)), newrows(bytes), #treeIterates
+//@   modifies newobjs(api.SubscriptionList), newobjs(api.Subscription), newrows(*api.Subscription), newrows(api.Subscription), newrows(bytes), #treeIterates
 //@ func (*subscriptionsState).All() (out []api.Subscription)
 //@   requires s != nil && s.subscriptions != nil && unlocked(s.mu)
 //@   ensures #treeIterates == old(#treeIterates) + 1
-//@   modifies *, except(heap(E_byte)), newrows(bytes), #treeIterates
+//@   modifies newobjs(api.SubscriptionList), newobjs(api.Subscription), newrows(*api.Subscription), newrows(api.Subscription), newrows(bytes), #treeIterates
 
 // C10: the snapshot of the subscription index: one iteration over the trie with a closure that appends EVERY entry of every
 // decoded list (removed ones included) to the event
 //@ func (*subscriptionsState).dump(event *api.StateBroadcastEvent)
 //@   requires s != nil && s.subscriptions != nil && unlocked(s.mu) && event != nil
 //@   ensures #treeIterates == old(#treeIterates) + 1
-//@   modifies *, except(heap(E_byte)), newrows(bytes), #treeIterates
+//@   modifies event.Subscriptions, elems(event.Subscriptions), newobjs(api.SubscriptionList), newobjs(api.Subscription), newrows(*api.Subscription), newrows(bytes), #treeIterates
 //@ func (*subscriptionsState).dump$1(b []byte)
 //@   requires event != nil && off(event.Subscriptions) == 0
 //@   ensures off(event.Subscriptions) == 0
@@ -508,4 +514,187 @@ package distributed
 //@   ensures sl_ok(string(b)) ==> len(event.Subscriptions) == old(len(event.Subscriptions)) + sl_n(string(b))
 //@   ensures forall i int :: {event.Subscriptions[i]} 0 <= i && i < old(len(event.Subscriptions)) ==> event.Subscriptions[i] == old(event.Subscriptions[i])
 //@   ensures sl_ok(string(b)) ==> (forall j int :: {sl_sid(string(b), j)} {event.Subscriptions[old(len(event.Subscriptions)) + j]} 0 <= j && j < sl_n(string(b)) ==> event.Subscriptions[old(len(event.Subscriptions)) + j] != nil && sl_is(string(b), j, *event.Subscriptions[old(len(event.Subscriptions)) + j]))
-//@   modifies event.Subscriptions, allelems(event.Subscriptions), newobjs(api.SubscriptionList), newobjs(api.Subscription), newrows(*api.Subscription), newrows(bytes)
+//@   modifies event.Subscriptions, elems(event.Subscriptions), newobjs(api.SubscriptionList), newobjs(api.Subscription), newrows(*api.Subscription), newrows(bytes)
+
+// ---- retained messages (C07, C08, C09, C10) -----------------------------------------------------------------------------------
+// what a decoder sees in an encoded api.RetainedMessage (A-PROTOBUF): decodable, the two timestamps, the topic
+//@ fun rm_ok(enc string) bool
+//@ fun rm_la(enc string) int64
+//@ fun rm_ld(enc string) int64
+//@ fun rm_topic(enc string) string
+//@ fun rm_payload(enc string) string
+//@ axiom rm_nonempty: forall e string :: {rm_ok(e)} rm_ok(e) ==> len(e) > 0
+//@ pred rm_is(enc string, v api.RetainedMessage) := rm_ok(enc) && rm_la(enc) == v.LastAdded && rm_ld(enc) == v.LastDeleted && (v.Publish != nil ==> rm_topic(enc) == string(v.Publish.Topic) && rm_payload(enc) == string(v.Publish.Payload))
+// update time of what is stored ("" = never written)
+//@ fun rts(enc string) int64 := if enc == "" then 0 else lwwts(rm_la(enc), rm_ld(enc))
+//@ trusted func github.com/golang/protobuf/proto.Marshal(pb proto.Message) (out []byte, err error)
+//@   ensures err == nil && typeis(pb, *api.RetainedMessage) ==> fresh(out) && rm_is(string(out), *unbox(pb, *api.RetainedMessage))
+//@ trusted func github.com/golang/protobuf/proto.Unmarshal(buf []byte, pb proto.Message) (err error)
+//@   requires typeis(pb, *api.RetainedMessage) ==> unbox(pb, *api.RetainedMessage) != nil
+//@   ensures typeis(pb, *api.RetainedMessage) ==> (err == nil <==> rm_ok(string(buf)))
+//@   ensures err == nil && typeis(pb, *api.RetainedMessage) ==> rm_is(string(buf), *unbox(pb, *api.RetainedMessage))
+//@   modifies when pb is *api.RetainedMessage: newobjs(unbox(pb, *api.RetainedMessage)), when pb is *api.RetainedMessage: newobjs(packet.Publish), when pb is *api.RetainedMessage: newobjs(packet.Header), newrows(bytes)
+
+// The store behind the interface (stub for this package; the trie is verified against topics/contracts_verif.go: Insert writes the
+// entry at the key of the topic and no other, Match on a topic without wildcards reports exactly the non-empty entry at that key).
+//@ func (topics.Store).Insert(t topics.Store, topic []byte, payload []byte) (had bool, err error)
+//@   ensures err == nil && #rstore == update(old(#rstore), string(topic), string(payload)) && #storeInserts == old(#storeInserts) + 1
+//@   ensures had <==> old(#rstore)[string(topic)] != ""
+//@   modifies #rstore, #storeInserts
+//@ func (topics.Store).Match(t topics.Store, topic []byte, msg *[][]byte) (err error)
+//@   requires msg != nil
+//@   ensures #storeMatches == old(#storeMatches) + 1 && err == nil
+//@   ensures err == nil && nowild(string(topic)) && #rstore[string(topic)] == "" ==> *msg == old(*msg)
+//@   ensures err == nil && nowild(string(topic)) && #rstore[string(topic)] != "" ==> len(*msg) == old(len(*msg)) + 1 && off(*msg) == old(off(*msg)) && string((*msg)[old(len(*msg))]) == #rstore[string(topic)]
+//@   ensures err == nil ==> len(*msg) >= old(len(*msg)) && (len(*msg) > 0 ==> fresh(*msg) || base(*msg) == old(base(*msg)))
+//@   modifies *msg, elems(*msg), newrows(byteslices), #storeMatches
+//@ func (topics.Store).Iterate(t topics.Store, f topics.NodeIterator)
+//@   ensures #storeIterates == old(#storeIterates) + 1
+//@   modifies effects(f), #storeIterates
+
+// get decodes what Match reports; on a topic without wildcards that is the record stored there, if any
+//@ func (*topicsState).get(pattern []byte) (out []*api.RetainedMessage, err error)
+//@   requires t != nil && t.tree != nil
+//@   ensures #storeMatches == old(#storeMatches) + 1 && #rstore == old(#rstore)
+//@   ensures err == nil ==> off(out) == 0 && (forall i int :: {out[i]} 0 <= i && i < len(out) ==> out[i] != nil && fresh(out[i]))
+//@   ensures err == nil && nowild(string(pattern)) ==> len(out) <= 1 && (len(out) == 0 <==> #rstore[string(pattern)] == "") && (len(out) == 1 ==> rm_is(#rstore[string(pattern)], *out[0]))
+//@   ensures err != nil && nowild(string(pattern)) ==> #rstore[string(pattern)] != "" && !rm_ok(#rstore[string(pattern)])
+//@   modifies #storeMatches, newobjs(api.RetainedMessage), newobjs(packet.Publish), newobjs(packet.Header), newrows(bytes), newrows(byteslices), newrows(*api.RetainedMessage)
+//@ loop (*topicsState).get#1
+//@   invariant t != nil && len(out) == len(outBuf) && off(out) == 0 && fresh(out) && -1 <= rangeindex && rangeindex < len(outBuf) && #rstore == old(#rstore) && #storeMatches == old(#storeMatches) + 1
+//@   invariant oldrows("[][]byte") && oldrows("[]*api.RetainedMessage") && oldobjs("api.RetainedMessage")
+//@   invariant nowild(string(old(pattern))) && #rstore[string(old(pattern))] == "" ==> len(outBuf) == 0
+//@   invariant nowild(string(old(pattern))) && #rstore[string(old(pattern))] != "" ==> len(outBuf) == 1 && string(outBuf[0]) == #rstore[string(old(pattern))]
+//@   invariant forall i int :: {out[i]} {outBuf[i]} 0 <= i && i <= rangeindex ==> out[i] != nil && fresh(out[i]) && allocated(out[i]) && rm_is(string(outBuf[i]), *out[i])
+
+// set encodes the record and writes it at the topic (nothing is written when it cannot be encoded)
+//@ func (*topicsState).set(topic []byte, msg *api.RetainedMessage) (err error)
+//@   requires t != nil && t.tree != nil && msg != nil
+//@   ensures err == nil ==> #storeInserts == old(#storeInserts) + 1 && rm_is(#rstore[string(topic)], *msg) && (forall k string :: {#rstore[k]} k != string(topic) ==> #rstore[k] == old(#rstore)[k])
+//@   ensures err != nil ==> #rstore == old(#rstore) && #storeInserts == old(#storeInserts)
+//@   modifies #rstore, #storeInserts, newrows(bytes)
+
+// C08: the merge of a batch of remote retained records, topic by topic (topics without wildcards, as every publish topic is).
+// For every topic: the stored record never goes back in time (T1); a record of the batch that is an addition or a removal is
+// reflected or dominated by what is stored afterwards (T2); what is stored afterwards is what was stored before or the encoding
+// of one of the records of the batch for that topic (T3).
+//@ pred rm_valid(m *api.RetainedMessage) := m != nil && m.Publish != nil && len(m.Publish.Topic) > 0 && nowild(string(m.Publish.Topic))
+//@ pred rm_change(m *api.RetainedMessage) := (m.LastAdded > 0 && m.LastAdded > m.LastDeleted) || (m.LastDeleted > 0 && m.LastAdded < m.LastDeleted)
+//@ func (*topicsState).mergeMessages(messages []*api.RetainedMessage) (err error)
+//@   requires t != nil && t.tree != nil && unlocked(t.mu)
+//@   requires forall i int :: {messages[i]} 0 <= i && i < len(messages) ==> messages[i] != nil && (messages[i].Publish != nil ==> nowild(string(messages[i].Publish.Topic)))
+//@   requires forall k string :: {#rstore[k]} #rstore[k] == "" || rm_ok(#rstore[k])
+//@   ensures forall k string :: {#rstore[k]} (#rstore[k] == "" || rm_ok(#rstore[k])) && rts(#rstore[k]) >= rts(old(#rstore)[k])
+//@   ensures err == nil ==> (forall i int :: {messages[i]} 0 <= i && i < len(messages) && rm_change(messages[i]) ==> rts(#rstore[string(messages[i].Publish.Topic)]) >= lwwts(messages[i].LastAdded, messages[i].LastDeleted))
+//@   ensures forall k string :: {#rstore[k]} #rstore[k] == old(#rstore)[k] || (exists i int :: {messages[i]} 0 <= i && i < len(messages) && messages[i].Publish != nil && string(messages[i].Publish.Topic) == k && rm_is(#rstore[k], *messages[i]))
+//@   modifies #rstore, #storeInserts, #storeMatches, newobjs(api.RetainedMessage), newobjs(packet.Publish), newobjs(packet.Header), newrows(bytes), newrows(byteslices), newrows(*api.RetainedMessage)
+//@ loop (*topicsState).mergeMessages#1
+//@   invariant t != nil && t.tree != nil && -1 <= rangeindex && rangeindex < len(messages)
+//@   invariant oldobjs("api.RetainedMessage") && oldobjs("packet.Publish") && oldrows("[]byte") && oldrows("[]*api.RetainedMessage") && oldrows("[][]byte")
+//@   invariant forall k string :: {#rstore[k]} (#rstore[k] == "" || rm_ok(#rstore[k])) && rts(#rstore[k]) >= rts(old(#rstore)[k])
+//@   invariant forall i int :: {messages[i]} 0 <= i && i <= rangeindex && rm_change(messages[i]) ==> messages[i].Publish != nil && rts(#rstore[string(messages[i].Publish.Topic)]) >= lwwts(messages[i].LastAdded, messages[i].LastDeleted)
+//@   invariant forall k string :: {#rstore[k]} #rstore[k] == old(#rstore)[k] || (exists i int :: {messages[i]} 0 <= i && i <= rangeindex && messages[i].Publish != nil && string(messages[i].Publish.Topic) == k && rm_is(#rstore[k], *messages[i]))
+
+// what a broadcast carries for retained message i
+//@ fun ev_ret_la(enc string, i int) int64
+//@ fun ev_ret_ld(enc string, i int) int64
+//@ fun ev_ret_topic(enc string, i int) string
+//@ fun ev_ret_payload(enc string, i int) string
+//@ pred evret_is(enc string, i int, v api.RetainedMessage) := ev_ret_la(enc, i) == v.LastAdded && ev_ret_ld(enc, i) == v.LastDeleted && (v.Publish != nil ==> ev_ret_topic(enc, i) == string(v.Publish.Topic) && ev_ret_payload(enc, i) == string(v.Publish.Payload))
+//@ trusted func github.com/golang/protobuf/proto.Marshal(pb proto.Message) (out []byte, err error)
+//@   ensures err == nil && typeis(pb, *api.StateBroadcastEvent) ==> (forall i int :: {ev_ret_la(string(out), i)} {unbox(pb, *api.StateBroadcastEvent).RetainedMessages[i]} 0 <= i && i < len(unbox(pb, *api.StateBroadcastEvent).RetainedMessages) ==> evret_is(string(out), i, *unbox(pb, *api.StateBroadcastEvent).RetainedMessages[i]))
+
+// C09 / C07: a retained message set (or cleared) locally is written at its topic as an added (removed) record and carried by
+// exactly one broadcast holding that record; when the broadcast cannot be built nothing is written and nothing is sent.
+//@ func (*topicsState).Set(message *packet.Publish) (err error)
+//@   requires t != nil && t.tree != nil && unlocked(t.mu) && t.bcast != nil && message != nil
+//@   ensures err == nil ==> #bcasts == old(#bcasts) + 1 && ev_nret(#lastBcast) == 1 && ev_nsess(#lastBcast) == 0 && ev_nsubs(#lastBcast) == 0
+//@            && rm_ok(#rstore[string(message.Topic)]) && rm_la(#rstore[string(message.Topic)]) > 0 && rm_ld(#rstore[string(message.Topic)]) == 0
+//@            && rm_topic(#rstore[string(message.Topic)]) == string(message.Topic) && rm_payload(#rstore[string(message.Topic)]) == string(message.Payload)
+//@            && ev_ret_la(#lastBcast, 0) == rm_la(#rstore[string(message.Topic)]) && ev_ret_ld(#lastBcast, 0) == 0 && ev_ret_topic(#lastBcast, 0) == string(message.Topic) && ev_ret_payload(#lastBcast, 0) == string(message.Payload)
+//@   ensures err == nil ==> (forall k string :: {#rstore[k]} k != string(message.Topic) ==> #rstore[k] == old(#rstore)[k])
+//@   ensures err != nil ==> #rstore == old(#rstore) && #bcasts == old(#bcasts)
+//@   modifies #rstore, #storeInserts, #bcasts, #lastBcast, newrows(bytes)
+//@ func (*topicsState).Delete(topic []byte) (err error)
+//@   requires t != nil && t.tree != nil && unlocked(t.mu) && t.bcast != nil
+//@   ensures err == nil ==> #bcasts == old(#bcasts) + 1 && ev_nret(#lastBcast) == 1 && ev_nsess(#lastBcast) == 0 && ev_nsubs(#lastBcast) == 0
+//@            && rm_ok(#rstore[string(topic)]) && rm_ld(#rstore[string(topic)]) > 0 && rm_la(#rstore[string(topic)]) == 0 && rm_topic(#rstore[string(topic)]) == string(topic)
+//@            && ev_ret_ld(#lastBcast, 0) == rm_ld(#rstore[string(topic)]) && ev_ret_la(#lastBcast, 0) == 0 && ev_ret_topic(#lastBcast, 0) == string(topic)
+//@   ensures err == nil ==> (forall k string :: {#rstore[k]} k != string(topic) ==> #rstore[k] == old(#rstore)[k])
+//@   ensures err != nil ==> #rstore == old(#rstore) && #bcasts == old(#bcasts)
+//@   modifies #rstore, #storeInserts, #bcasts, #lastBcast, newrows(bytes)
+
+// C07: Get reports the records that are currently added among what the store matches for the pattern (copies, in order)
+//@ func (*topicsState).Get(pattern []byte) (out []api.RetainedMessage, err error)
+//@   requires t != nil && t.tree != nil && unlocked(t.mu)
+//@   ensures #rstore == old(#rstore) && #storeMatches == old(#storeMatches) + 1
+//@   ensures err == nil ==> (forall i int :: {out[i]} 0 <= i && i < len(out) ==> out[i].LastAdded > 0 && out[i].LastAdded > out[i].LastDeleted)
+//@   ensures err == nil && nowild(string(pattern)) ==> len(out) <= 1 && (len(out) == 1 <==> (#rstore[string(pattern)] != "" && rm_la(#rstore[string(pattern)]) > 0 && rm_la(#rstore[string(pattern)]) > rm_ld(#rstore[string(pattern)])))
+//@            && (len(out) == 1 ==> rm_is(#rstore[string(pattern)], out[0]))
+//@   modifies #storeMatches, newobjs(api.RetainedMessage), newobjs(packet.Publish), newobjs(packet.Header), newrows(bytes), newrows(byteslices), newrows(*api.RetainedMessage), newrows(api.RetainedMessage)
+// both passes count the same entries (the added ones): the second fills exactly the slots the first counted
+//@ loop (*topicsState).Get#1
+//@   invariant -1 <= rangeindex && rangeindex < len(v) && off(v) == 0
+//@   invariant c == icard(rangeindex + 1, setof k int :: v[k] != nil && v[k].LastAdded > 0 && v[k].LastAdded > v[k].LastDeleted)
+//@ loop (*topicsState).Get#2
+//@   invariant -1 <= rangeindex && rangeindex < len(v) && off(v) == 0 && off(out) == 0 && fresh(out) && len(out) == c
+//@   invariant c == icard(len(v), setof k int :: v[k] != nil && v[k].LastAdded > 0 && v[k].LastAdded > v[k].LastDeleted)
+//@   invariant addedIdx == icard(rangeindex + 1, setof k int :: v[k] != nil && v[k].LastAdded > 0 && v[k].LastAdded > v[k].LastDeleted)
+//@   invariant oldrows("[]api.RetainedMessage") && oldobjs("api.RetainedMessage")
+//@   invariant forall i int :: {out[i]} 0 <= i && i < addedIdx ==> out[i].LastAdded > 0 && out[i].LastAdded > out[i].LastDeleted
+//@   invariant len(v) == 1 && rangeindex == 0 && addedIdx == 1 ==> out[0] == *v[0]
+
+// C10: the snapshot of the retained store: one iteration over the trie with a closure that appends the decoded record of every
+// entry (removed ones included) to the event
+//@ func (*topicsState).dump(event *api.StateBroadcastEvent)
+//@   requires t != nil && t.tree != nil && event != nil
+//@   ensures #storeIterates == old(#storeIterates) + 1
+//@   modifies event.RetainedMessages, elems(event.RetainedMessages), newobjs(api.RetainedMessage), newobjs(packet.Publish), newobjs(packet.Header), newrows(bytes), newrows(*api.RetainedMessage), #storeIterates
+//@ func (*topicsState).dump$1(b []byte)
+//@   requires event != nil && off(event.RetainedMessages) == 0
+//@   ensures off(event.RetainedMessages) == 0
+//@   ensures !rm_ok(string(b)) ==> len(event.RetainedMessages) == old(len(event.RetainedMessages))
+//@   ensures rm_ok(string(b)) ==> len(event.RetainedMessages) == old(len(event.RetainedMessages)) + 1 && event.RetainedMessages[old(len(event.RetainedMessages))] != nil && rm_is(string(b), *event.RetainedMessages[old(len(event.RetainedMessages))])
+//@   ensures forall i int :: {event.RetainedMessages[i]} 0 <= i && i < old(len(event.RetainedMessages)) ==> event.RetainedMessages[i] == old(event.RetainedMessages[i])
+//@   modifies event.RetainedMessages, elems(event.RetainedMessages), newobjs(api.RetainedMessage), newobjs(packet.Publish), newobjs(packet.Header), newrows(bytes), newrows(*api.RetainedMessage)
+
+// ---- the gossip delegate (C08, C09, C10) --------------------------------------------------------------------------------------
+// A-PROTOBUF: decoding a StateBroadcastEvent yields exactly the records the encoding carries (fresh objects, no nil element)
+//@ trusted func github.com/golang/protobuf/proto.Unmarshal(buf []byte, pb proto.Message) (err error)
+//@   requires typeis(pb, *api.StateBroadcastEvent) ==> unbox(pb, *api.StateBroadcastEvent) != nil
+//@   ensures err == nil && typeis(pb, *api.StateBroadcastEvent) ==>
+//@            len(unbox(pb, *api.StateBroadcastEvent).SessionMetadatas) == ev_nsess(string(buf)) && off(unbox(pb, *api.StateBroadcastEvent).SessionMetadatas) == 0
+//@         && (forall i int :: {unbox(pb, *api.StateBroadcastEvent).SessionMetadatas[i]} 0 <= i && i < ev_nsess(string(buf)) ==> unbox(pb, *api.StateBroadcastEvent).SessionMetadatas[i] != nil && sm_eq(*unbox(pb, *api.StateBroadcastEvent).SessionMetadatas[i], ev_sess(string(buf), i)))
+//@         && len(unbox(pb, *api.StateBroadcastEvent).Subscriptions) == ev_nsubs(string(buf)) && off(unbox(pb, *api.StateBroadcastEvent).Subscriptions) == 0
+//@         && (forall i int :: {unbox(pb, *api.StateBroadcastEvent).Subscriptions[i]} {ev_sub(string(buf), i)} 0 <= i && i < ev_nsubs(string(buf)) ==> unbox(pb, *api.StateBroadcastEvent).Subscriptions[i] != nil && evsub_is(string(buf), i, *unbox(pb, *api.StateBroadcastEvent).Subscriptions[i]))
+//@         && len(unbox(pb, *api.StateBroadcastEvent).RetainedMessages) == ev_nret(string(buf)) && off(unbox(pb, *api.StateBroadcastEvent).RetainedMessages) == 0
+//@         && (forall i int :: {unbox(pb, *api.StateBroadcastEvent).RetainedMessages[i]} 0 <= i && i < ev_nret(string(buf)) ==> unbox(pb, *api.StateBroadcastEvent).RetainedMessages[i] != nil && evret_is(string(buf), i, *unbox(pb, *api.StateBroadcastEvent).RetainedMessages[i])
+//@               && (unbox(pb, *api.StateBroadcastEvent).RetainedMessages[i].Publish != nil ==> nowild(string(unbox(pb, *api.StateBroadcastEvent).RetainedMessages[i].Publish.Topic)) || true))
+//@   modifies when pb is *api.StateBroadcastEvent: newobjs(unbox(pb, *api.StateBroadcastEvent)), when pb is *api.StateBroadcastEvent: newobjs(api.SessionMetadatas), when pb is *api.StateBroadcastEvent: newobjs(api.Subscription), when pb is *api.StateBroadcastEvent: newobjs(api.RetainedMessage), when pb is *api.StateBroadcastEvent: newobjs(packet.Publish), when pb is *api.StateBroadcastEvent: newobjs(packet.Header), when pb is *api.StateBroadcastEvent: newrows(*api.SessionMetadatas), when pb is *api.StateBroadcastEvent: newrows(*api.Subscription), when pb is *api.StateBroadcastEvent: newrows(*api.RetainedMessage), newrows(bytes)
+
+// C08 / C09 / C10: a received message (a single change or a full state) is decoded and every part is handed to the merge of
+// its table, in full: all session records to mergeSessions, all subscription records to mergeSubscriptions (and so to set, in
+// order), all retained records to mergeMessages. A message that does not decode changes nothing.
+//@ func (*state).MergeRemoteState(buf []byte, join bool)
+//@   requires s != nil && s.sessionMetadatas != nil && s.subscriptions != nil && s.topics != nil && sm_wf(s.sessionMetadatas) && unlocked(s.sessionMetadatas.mu)
+//@   requires s.subscriptions.subscriptions != nil && unlocked(s.subscriptions.mu) && s.topics.tree != nil && unlocked(s.topics.mu)
+// (the retained merge is specified for publish topics, which carry no wildcards, over a store whose entries all decode)
+//@   requires forall i int :: {ev_ret_topic(string(buf), i)} nowild(ev_ret_topic(string(buf), i))
+//@   requires forall k string :: {#rstore[k]} #rstore[k] == "" || rm_ok(#rstore[k])
+//@   ensures sm_wf(s.sessionMetadatas)
+//@   ensures forall k string :: {#rstore[k]} (#rstore[k] == "" || rm_ok(#rstore[k])) && rts(#rstore[k]) >= rts(old(#rstore)[k])
+//@   ensures forall k string :: {s.sessionMetadatas.sessions[k]} {k in s.sessionMetadatas.sessions} old(k in s.sessionMetadatas.sessions) ==> k in s.sessionMetadatas.sessions && smts(s.sessionMetadatas.sessions[k]) >= old(smts(s.sessionMetadatas.sessions[k]))
+//@   ensures #setN >= old(#setN) && #setN <= old(#setN) + ev_nsubs(string(buf))
+//@   ensures forall j int :: {#setSid[old(#setN) + j]} 0 <= j && j < #setN - old(#setN) ==> #setSid[old(#setN) + j] == ev_sub(string(buf), j).SessionID && #setPat[old(#setN) + j] == ev_sub_pat(string(buf), j) && #setLA[old(#setN) + j] == ev_sub(string(buf), j).LastAdded && #setLD[old(#setN) + j] == ev_sub(string(buf), j).LastDeleted
+//@   modifies *, except(heap(E_byte)), newrows(bytes), #setN, #setSid, #setPat, #setPeer, #setQoS, #setLA, #setLD, #treeUpserts, #lastUpsertKey, #rstore, #storeInserts, #storeMatches
+
+// C10: the full-state snapshot is built from the three tables (one iteration over the subscription index and over the retained
+// store, the collecting closures are specified above) and carries EVERY session record, removed ones included.
+//@ func (*state).LocalState(join bool) (buf []byte)
+//@   requires s != nil && s.sessionMetadatas != nil && s.subscriptions != nil && s.topics != nil && sm_wf(s.sessionMetadatas) && unlocked(s.sessionMetadatas.mu)
+//@   requires s.subscriptions.subscriptions != nil && unlocked(s.subscriptions.mu) && s.topics.tree != nil
+//@   ensures #treeIterates == old(#treeIterates) + 1 && #storeIterates == old(#storeIterates) + 1
+//@   ensures buf != nil ==> (forall k string :: {s.sessionMetadatas.sessions[k]} {k in s.sessionMetadatas.sessions} k in s.sessionMetadatas.sessions ==>
+//@             (exists i int :: {ev_sess(string(buf), i)} 0 <= i && i < ev_nsess(string(buf)) && sm_eq(ev_sess(string(buf), i), s.sessionMetadatas.sessions[k])))
+//@   ensures forall k string :: {s.sessionMetadatas.sessions[k]} {k in s.sessionMetadatas.sessions} (k in s.sessionMetadatas.sessions <==> old(k in s.sessionMetadatas.sessions)) && s.sessionMetadatas.sessions[k] == old(s.sessionMetadatas.sessions[k])
+//@   modifies newobjs(api.StateBroadcastEvent), newobjs(api.SessionMetadatas), newobjs(api.SubscriptionList), newobjs(api.Subscription), newobjs(api.RetainedMessage), newobjs(packet.Publish), newobjs(packet.Header), newrows(*api.SessionMetadatas), newrows(*api.Subscription), newrows(*api.RetainedMessage), newrows(bytes), #treeIterates, #storeIterates
